@@ -193,6 +193,9 @@ def run_item(item):
         opts['--width'] = rng.choice([60, 120])
     if rng.random() < 0.2:
         opts['--hyperlinks'] = True
+    if fmt == 'json' and rng.random() < 0.2:
+        # rg --json records are far longer than the code they carry: the limit on the length of input lines does not apply
+        opts['--max-line-length'] = rng.choice([20, 60, 100, 300])
     args = gen.to_args(opts)
     # delivery
     if func_ctx:
